@@ -33,6 +33,12 @@ def seeded(U, rnd, quick):
                         texts.add(pv + rnd.choice(["+incompatible", "+meta.1", "+b"]))
                     texts.add("v%d.%d.%d" % (M, m, p)); texts.add("v%d.%d.%d-%s" % (M, m, p, rnd.choice(["0", "pre", "rc.1", "alpha", "pre.0", "1"])))
             jobs.append({"k": "matrix", "eco": eco, "tag": "seeded", "texts": sorted(texts), "part": []})
+        # fixed family: build metadata with hyphens and dots next to the same core with and without a pre-release (the first
+        # '-' of the text may belong to the build metadata), identifiers that are a prefix of each other, numeric 0 tails
+        pre = "v" if eco == "golang" else ""
+        fam = [pre + c + x for c in ("1.0.0", "1.4.0") for x in ("", "+build-1", "+build-2", "+linux-amd64", "+a.b-c", "-1", "-1+build-1", "-rc.1", "-rc.1+build-1",
+                                                                 "-rc.1.0", "-rc", "-rc-1", "-a.b", "-a-b", "-alpha", "-alpha.0", "-alpha.1", "-alpha.1.beta", "-alpha.1.gamma", "-0")]
+        jobs.append({"k": "matrix", "eco": eco, "tag": "seeded", "texts": fam, "part": []})
     return jobs
 
 def check(run):
